@@ -197,13 +197,33 @@ def optStr (s : String) : Option (Option Str) :=
   if s == "n" then some none else
   if s.front == 's' then (parseCps (s.drop 1).toString).map some else none
 
+/-- `Cache.check()` on a state the model considers consistent reports nothing (C08/C17):
+counters match, every file-backed row has its file with the recorded size, no orphan file -/
+def consistentOut (s : Cache) : Out :=
+  let refOk := s.rows.all (fun r => match r.file with
+    | some f => (match s.fileGet f with | some c => c.size == r.size | none => false)
+    | none => true)
+  let orphanOk := s.files.all (fun p => s.rows.any (fun r => r.file == some p.1) ||
+    s.pending.contains (some p.1) || s.created.contains p.1)
+  let cntOk := s.count == (s.rows.length : Int) && s.size == Cache.sumSizesB s.rows
+  if refOk && orphanOk && cntOk then .list [] else .exc "Inconsistent"
+
+/-- `reset(key, value)` of the settings the model carries -/
+def resetSetting (s : Cache) (key : String) (val : Int) : Except String (Cache × Out) :=
+  match key with
+  | "cull_limit" => pure ({ s with cfg := { s.cfg with cullLimit := val.toNat } }.logSql "setCullLimit", .int val)
+  | "size_limit" => pure ({ s with cfg := { s.cfg with limN := val, limD := 1 } }.logSql "setSizeLimit", .int val)
+  | "statistics" => pure ({ s with statistics := val != 0 }.logSql "setStatistics", .int val)
+  | "disk_min_file_size" => pure ({ s with cfg := { s.cfg with minFileSize := val.toNat } }.logSql "setDiskMinFileSize", .int val)
+  | _ => throw "reset-key"
+
 /-- run one `op` line on a plain cache -/
 def runCacheOp (s : Cache) (kv : KV) : Except String (Cache × Out) := do
   let m := kv.getD "m" ""
   let now ← match (kv.getD "now" "0").toInt? with | some n => pure n | none => throw "now"
   let env ← match parseEnv (kv.getD "env" "-") with | some e => pure e | none => throw "env"
   let s := { s with trace := [], env := env, envMiss := false }
-  let needK := ["set", "add", "touch", "incr", "get", "getitem", "read", "contains", "pop",
+  let needK := ["set", "add", "touch", "incr", "decr", "get", "getitem", "read", "contains", "pop",
                 "delitem", "delete"].contains m
   let k ← if needK then
       match (KV.get? kv "k").bind parsePyVal with | some k => pure k | none => throw "k"
@@ -236,6 +256,10 @@ def runCacheOp (s : Cache) (kv : KV) : Except String (Cache × Out) := do
     let delta ← match (kv.getD "delta" "1").toInt? with | some d => pure d | none => throw "delta"
     let dflt ← match parseOptInt (kv.getD "default" "0") with | some d => pure d | none => throw "default"
     pure (s.incr E now k delta dflt)
+  | "decr" =>
+    let delta ← match (kv.getD "delta" "1").toInt? with | some d => pure d | none => throw "delta"
+    let dflt ← match parseOptInt (kv.getD "default" "0") with | some d => pure d | none => throw "default"
+    pure (s.incr E now k (-delta) dflt)
   | "get" => pure (s.get E now k read et tg)
   | "getitem" => pure (keyErr (s.get E now k false false false))
   | "read" => pure (keyErr (s.get E now k true false false))
@@ -257,16 +281,7 @@ def runCacheOp (s : Cache) (kv : KV) : Except String (Cache × Out) := do
   | "riter" => pure (s.iter E false)
   | "iterkeys" => pure (s.iterkeys E false)
   | "riterkeys" => pure (s.iterkeys E true)
-  | "check" =>
-    -- `Cache.check()` on a state the model considers consistent reports nothing (C08/C17):
-    -- counters match, every file-backed row has its file with the recorded size, no orphan file
-    let refOk := s.rows.all (fun r => match r.file with
-      | some f => (match s.fileGet f with | some c => c.size == r.size | none => false)
-      | none => true)
-    let orphanOk := s.files.all (fun p => s.rows.any (fun r => r.file == some p.1) ||
-      s.pending.contains (some p.1) || s.created.contains p.1)
-    let cntOk := s.count == (s.rows.length : Int) && s.size == Cache.sumSizesB s.rows
-    if refOk && orphanOk && cntOk then pure (s, .list []) else pure (s, .exc "Inconsistent")
+  | "check" => pure (s, consistentOut s)
   | "reopen" => pure (s, .none)     -- close/reopen, pickling, a second handle: identity on the directory
   | "pickle" => pure (s, .none)
   | "second" => pure (s, .none)
@@ -285,12 +300,7 @@ def runCacheOp (s : Cache) (kv : KV) : Except String (Cache × Out) := do
   | "reset" =>
     let key := kv.getD "key" ""
     let val ← match (kv.getD "value" "0").toInt? with | some n => pure n | none => throw "value"
-    match key with
-    | "cull_limit" => pure ({ s with cfg := { s.cfg with cullLimit := val.toNat } }.logSql "setCullLimit", .int val)
-    | "size_limit" => pure ({ s with cfg := { s.cfg with limN := val, limD := 1 } }.logSql "setSizeLimit", .int val)
-    | "statistics" => pure ({ s with statistics := val != 0 }.logSql "setStatistics", .int val)
-    | "disk_min_file_size" => pure ({ s with cfg := { s.cfg with minFileSize := val.toNat } }.logSql "setDiskMinFileSize", .int val)
-    | _ => throw "reset-key"
+    resetSetting s key val
   | _ => throw s!"method:{m}"
 
 
@@ -499,6 +509,21 @@ structure LArgs where
   et : Bool
   tg : Bool
   kv : KV
+  vs : List PyVal := []
+  ks : List PyVal := []
+
+/-- `;`-separated value tokens (`-` = empty list) -/
+def parseValList (s : String) : Option (List PyVal) :=
+  if s == "-" || s.isEmpty then some [] else (s.splitOn ";").mapM parsePyVal
+
+def parseHexList (s : String) : Option (List Bytes) :=
+  if s == "-" || s.isEmpty then some [] else
+    (s.splitOn ";").mapM (fun h => if h == "_" then some [] else hexToBytes h)
+
+def lookupPickle (tbl : List (PyVal × Bytes)) (x : PyVal) : Option Bytes :=
+  match tbl.find? (fun p => p.1 == x && !p.2.isEmpty) with
+  | some p => some p.2
+  | none => none
 
 def parseLArgs (kv : KV) : Except String LArgs := do
   let now ← match (kv.getD "now" "0").toInt? with | some n => pure n | none => throw "now"
@@ -519,13 +544,24 @@ def parseLArgs (kv : KV) : Except String LArgs := do
   let ttl ← match parseOptInt (kv.getD "ttl" "n") with | some t => pure t | none => throw "ttl"
   let tag ← match parseSqlVal (kv.getD "tag" "n") with | some t => pure t | none => throw "tag"
   -- values that come back out of the cache carry their own serialized form
+  -- argument lists (extend, update, comparisons): each element with its own serialized form
+  let vs ← match parseValList (kv.getD "vs" "-") with | some l => pure l | none => throw "vs"
+  let ks ← match parseValList (kv.getD "ks" "-") with | some l => pure l | none => throw "ks"
+  let vps ← match parseHexList (kv.getD "vps" "-") with | some l => pure l | none => throw "vps"
+  let kps ← match parseHexList (kv.getD "kps" "-") with | some l => pure l | none => throw "kps"
+  let vtbl := vs.zip vps
+  let ktbl := ks.zip kps
   let E0 := obsE k kp vp
   let E : Externals := { E0 with
-    dumpsV := fun x => match x with | .obj o => (if vp.isEmpty then o else vp) | _ => vp,
-    dumpsK := fun x => match x with | .obj o => (if kp.isEmpty then o else kp) | _ => kp }
+    dumpsV := fun x => match lookupPickle vtbl x with
+      | some b => b
+      | none => match x with | .obj o => (if vp.isEmpty then o else vp) | _ => vp,
+    dumpsK := fun x => match lookupPickle ktbl x with
+      | some b => b
+      | none => match x with | .obj o => (if kp.isEmpty then o else kp) | _ => kp }
   pure { m := kv.getD "m" "", now := now, env := env, k := k, E := E, v := v, ttl := ttl, tag := tag,
          read := parseBool (kv.getD "read" "0"), et := parseBool (kv.getD "et" "0"),
-         tg := parseBool (kv.getD "tg" "0"), kv := kv }
+         tg := parseBool (kv.getD "tg" "0"), kv := kv, vs := vs, ks := ks }
 
 def needV (a : LArgs) : Except String PyVal :=
   match a.v with | some v => pure v | none => throw "v"
@@ -558,6 +594,32 @@ def runFanOp (f : Fanout) (a : LArgs) : Except String (Fanout × Out) := do
   | "riter" => pure (f.iter a.E false)
   | "stats" => pure (f.stats (parseBool (a.kv.getD "enable" "1")) (parseBool (a.kv.getD "reset" "0")))
   | "route" => pure (f, .int (f.route a.E a.k))
+  | "decr" =>
+    let delta ← match (a.kv.getD "delta" "1").toInt? with | some d => pure d | none => throw "delta"
+    let dflt ← match parseOptInt (a.kv.getD "default" "0") with | some d => pure d | none => throw "default"
+    pure (f.keyed a.E a.k (fun s => s.incr a.E a.now a.k (-delta) dflt))
+  | "read" => pure (keyErr (f.keyed a.E a.k (fun s => s.get a.E a.now a.k true false false)))
+  | "tbegin" => pure f.tbegin
+  | "tend" => pure f.tend
+  | "traise" =>
+    let n ← match (a.kv.getD "n" "1").toNat? with | some n => pure n | none => throw "n"
+    pure (f.traise n)
+  | "reset" =>
+    let key := a.kv.getD "key" ""
+    let val ← match (a.kv.getD "value" "0").toInt? with | some n => pure n | none => throw "value"
+    -- every shard gets the value; the last shard's answer is returned (fanout.py:549-575)
+    let rec go (shards : List Cache) (acc : List Cache) (last : Out) : Except String (List Cache × Out) :=
+      match shards with
+      | [] => pure (acc.reverse, last)
+      | s :: rest => do
+        let (s', o) ← resetSetting s key val
+        go rest (s' :: acc) o
+    let (shards, o) ← go f.shards [] .none
+    pure ({ f with shards := shards }, o)
+  | "check" =>
+    -- warnings of every shard, in shard order
+    if f.shards.all (fun s => match consistentOut s with | .list [] => true | _ => false)
+    then pure (f, .list []) else pure (f, .exc "Inconsistent")
   | m => throw s!"fanout-method:{m}"
 
 def runDequeOp (d : Deque) (a : LArgs) : Except String (Deque × Out) := do
@@ -580,6 +642,20 @@ def runDequeOp (d : Deque) (a : LArgs) : Except String (Deque × Out) := do
   | "rotate" => pure (d.rotate a.E a.now idx)
   | "reverse" => pure (d.reverse a.E a.now)
   | "maxlen" => pure (d.setMaxlen a.E a.now idx.toNat)
+  | "extend" => pure (d.extend a.E a.now a.vs false)
+  | "iadd" => pure (d.extend a.E a.now a.vs false)
+  | "extendleft" => pure (d.extend a.E a.now a.vs true)
+  | "count" => do let v ← needV a; pure (d.countOf a.E a.now v)
+  | "remove" => do let v ← needV a; pure (d.remove a.E a.now v)
+  | "cmp" =>
+    let op ← match a.kv.getD "op" "" with
+      | "eq" => pure CmpOp.eq | "ne" => pure CmpOp.ne | "lt" => pure CmpOp.lt
+      | "gt" => pure CmpOp.gt | "le" => pure CmpOp.le | "ge" => pure CmpOp.ge
+      | o => throw s!"cmp-op:{o}"
+    pure (d.compare a.E a.now op a.vs)
+  | "copy" => pure d.rehandle
+  | "pickle" => pure d.rehandle
+  | "reopen" => pure d.rehandle
   | m => throw s!"deque-method:{m}"
 
 def runIndexOp (x : Index) (a : LArgs) : Except String (Index × Out) := do
@@ -597,6 +673,18 @@ def runIndexOp (x : Index) (a : LArgs) : Except String (Index × Out) := do
   | "riter" => pure (x.iter a.E false)
   | "items" => pure (x.items a.E a.now)
   | "clear" => pure x.clear
+  | "update" =>
+    if a.ks.length != a.vs.length then throw "update-lengths" else pure (x.update a.E a.now (a.ks.zip a.vs))
+  | "keys" => pure (x.iter a.E true)
+  | "values" => pure (x.values a.E a.now)
+  | "eq" =>
+    if a.ks.length != a.vs.length then throw "eq-lengths"
+    else pure (x.eqTo a.E a.now (parseBool (a.kv.getD "ordered" "0")) (a.ks.zip a.vs))
+  | "ne" =>
+    if a.ks.length != a.vs.length then throw "ne-lengths"
+    else pure (x.neTo a.E a.now (parseBool (a.kv.getD "ordered" "0")) (a.ks.zip a.vs))
+  | "pickle" => pure x.rehandle
+  | "reopen" => pure x.rehandle
   | m => throw s!"index-method:{m}"
 
 def runDjangoOp (d : Django) (a : LArgs) : Except String (Django × Out) := do
@@ -610,8 +698,8 @@ def runDjangoOp (d : Django) (a : LArgs) : Except String (Django × Out) := do
   let mk := d.makeKey key version
   let E : Externals := { a.E with jsonz := fun x => if x == mk then a.E.jsonz a.k else a.E.jsonz x }
   match a.m with
-  | "set" => do let v ← needV a; pure (d.set E a.now key v t version)
-  | "add" => do let v ← needV a; pure (d.add E a.now key v t version)
+  | "set" => do let v ← needV a; pure (d.set E a.now key v t version a.tag)
+  | "add" => do let v ← needV a; pure (d.add E a.now key v t version a.tag)
   | "get" => pure (d.get E a.now key version)
   | "touch" => pure (d.touch E a.now key t version)
   | "delete" => pure (d.delete E a.now key version)
@@ -620,7 +708,16 @@ def runDjangoOp (d : Django) (a : LArgs) : Except String (Django × Out) := do
   | "incr" =>
     let delta ← match (a.kv.getD "delta" "1").toInt? with | some d => pure d | none => throw "delta"
     pure (d.incr E a.now key delta version)
+  | "decr" =>
+    let delta ← match (a.kv.getD "delta" "1").toInt? with | some d => pure d | none => throw "delta"
+    pure (d.decr E a.now key delta version)
+  | "read" => pure (d.read E a.now key version)
   | "clear" => pure d.clear
+  | "expire" => pure (d.expire a.now)
+  | "cull" => pure (d.cull a.now)
+  | "evict" => pure (d.evict a.tag)
+  | "stats" => pure (d.stats (parseBool (a.kv.getD "enable" "1")) (parseBool (a.kv.getD "reset" "0")))
+  | "backend_timeout" => pure (d, match d.backendTimeout t with | some x => .int x | none => .none)
   | "make_key" => pure (d, .val (d.makeKey key version))
   | m => throw s!"django-method:{m}"
 
